@@ -8,6 +8,7 @@ Contract (U = the part of the input on or above the diagonal, duplicates summed)
 entries below the diagonal are ignored; the result has the shape of the input; a non-square input raises ValueError.
 """
 from ..poly import P, normal
+from ..pycheck import keep_matrix as _keep_matrix
 from .. import pysym, shims, segcoo
 from ..pysym import Interp, integer, real, to_z3, SymRaise
 
@@ -39,7 +40,7 @@ def _check_one(led, fn):
         it = Interp()
         shims.install(it)
         segcoo.install(it)
-        it.contracts['scipy.sparse.csr_matrix'] = lambda itp, a, kw: a[0]
+        it.contracts['scipy.sparse.csr_matrix'] = _keep_matrix
         n = integer('n')
         it.facts += [to_z3(n) >= 1]
         f = it.module('compmech.sparse').g[fn]
@@ -116,7 +117,7 @@ def _check_one(led, fn):
         it2 = Interp()
         shims.install(it2)
         segcoo.install(it2)
-        it2.contracts['scipy.sparse.csr_matrix'] = lambda itp, a, kw: a[0]
+        it2.contracts['scipy.sparse.csr_matrix'] = _keep_matrix
         f2 = it2.module('compmech.sparse').g[fn]
 
         def run2():
@@ -181,7 +182,7 @@ def _remove_null_cols(led):
             def __call__(self, x):
                 return x
         csr_t = CsrT(as_csr)
-        it.contracts['scipy.sparse.csr_matrix'] = lambda itp, a, kw: a[0]
+        it.contracts['scipy.sparse.csr_matrix'] = _keep_matrix
         it.shims['scipy.sparse.csr_matrix'] = csr_t
         it.contracts['compmech.logger.log'] = lambda itp, a, kw: None
 
